@@ -21,6 +21,13 @@
 (*   <<"a", g>>              Append(Garbage(g, E))                                    *)
 (*   <<"c", off, w, p, n>>   Combo: MaxLen(off, w, p) followed by Truncate(n),        *)
 (*                           off + w <= n < |E| (the maximised field survives)        *)
+(*   <<"o", off, w, v>>      Overflow value: the w-byte window at a 4-aligned off     *)
+(*                           overwritten with OVal(w, v) - a count that makes         *)
+(*                           count * elem_size (+ header) wrap: 2^64/es, 2^63/es,     *)
+(*                           2^32/es (es = 1..16) and their neighbours, MAX - small   *)
+(*   <<"p", off, 8, v>>      the same value in TWO adjacent 8-byte fields (a length   *)
+(*                           and a capacity that agree with each other)               *)
+(*   <<"u", off, w, v>>      as "o" at the offsets that are not multiples of 4        *)
 (*   <<"r", b1, .., bk>>     the raw byte string <<b1..bk>> (E is not used)           *)
 (*   <<"R", k>>              compact class: every byte string of length exactly k     *)
 (*                           (expanded by the harness in lexicographic order; used    *)
@@ -111,7 +118,41 @@ RawSeqK(k) ==
       [] k = 2 -> [j \in 1..65536 |-> <<"r", (j - 1) \div 256, (j - 1) % 256>>]
 RawSeq(kmax) == FlattenSeq([j \in 1..(Min2(kmax, 2) + 1) |-> RawSeqK(j - 1)])
 
-Kinds == {"b", "t", "s", "m", "a", "c", "r", "R"}
+(* ---- multiplication-overflow values of a count / length field (little endian).        *)
+(* TLC integers are 32 bit: the values are built as byte strings.                           *)
+PowPlus(w, e, d) ==      \* 2^e + d   (0 <= d < 256, e >= 8)
+    [j \in 1..w |-> IF j = 1 THEN d ELSE IF j = (e \div 8) + 1 THEN 2 ^ (e % 8) ELSE 0]
+PowMinus1(w, e) ==       \* 2^e - 1
+    [j \in 1..w |-> IF j < (e \div 8) + 1 THEN 255 ELSE IF j = (e \div 8) + 1 THEN 2 ^ (e % 8) - 1 ELSE 0]
+MaxMinus(w, d) ==        \* 2^(8w) - 1 - d   (0 <= d < 256)
+    [j \in 1..w |-> IF j = 1 THEN 255 - d ELSE 255]
+Around(w, e) == << PowMinus1(w, e), PowPlus(w, e, 0), PowPlus(w, e, 1) >>
+Around100(w, e) == Around(w, e) \o << PowPlus(w, e, 100) >>
+NearMax(w) == << MaxMinus(w, 0), MaxMinus(w, 1), MaxMinus(w, 79), MaxMinus(w, 80) >>
+(* 8-byte fields: 2^64/es and 2^63/es for es = 2..16 (2^60..2^63, 2^59), 2^32/es (2^28..2^32),   *)
+(* each with -1 / +1 (and +100: wraps to a plausible small size), and the top of the range       *)
+OVals8 == Around100(8, 63) \o Around100(8, 62) \o Around100(8, 61) \o Around100(8, 60) \o Around(8, 59) \o
+          Around(8, 32) \o Around(8, 31) \o Around(8, 30) \o Around(8, 29) \o Around(8, 28) \o NearMax(8)
+(* 4-byte fields: the 2^32 analogues *)
+OVals4 == Around100(4, 31) \o Around100(4, 30) \o Around100(4, 29) \o Around100(4, 28) \o NearMax(4)
+OVals(w) == IF w = 8 THEN OVals8 ELSE OVals4
+OVal(w, v) == OVals(w)[v]
+NV(w) == Len(OVals(w))
+
+(* 4-aligned window offsets 0, 4, 8 .. with off + span <= min(L, lim) *)
+AlignedCount(L, span, lim) == IF Min2(L, lim) >= span THEN ((Min2(L, lim) - span) \div 4) + 1 ELSE 0
+OverFor(L, w, lim) ==
+    [j \in 1..(AlignedCount(L, w, lim) * NV(w)) |-> <<"o", 4 * ((j - 1) \div NV(w)), w, ((j - 1) % NV(w)) + 1>>]
+OverSeq(L, lim) == OverFor(L, 4, lim) \o OverFor(L, 8, lim)
+PairSeq(L, lim) ==
+    [j \in 1..(AlignedCount(L, 16, lim) * NV(8)) |-> <<"p", 4 * ((j - 1) \div NV(8)), 8, ((j - 1) % NV(8)) + 1>>]
+UnalFor(L, w, lim) ==
+    LET grid == [j \in 1..(WinCount(L, w, lim) * NV(w)) |-> <<"u", (j - 1) \div NV(w), w, ((j - 1) % NV(w)) + 1>>]
+        keep(g) == g[2] % 4 # 0
+    IN  SelectSeq(grid, keep)
+UnalSeq(L, lim) == UnalFor(L, 4, lim) \o UnalFor(L, 8, lim)
+
+Kinds == {"b", "t", "s", "m", "a", "c", "o", "p", "u", "r", "R"}
 
 DescSeq(kind, L, P) ==
     CASE kind = "b" -> BaseSeq
@@ -120,6 +161,9 @@ DescSeq(kind, L, P) ==
       [] kind = "m" -> MaxLenSeq(L, P.win)
       [] kind = "a" -> AppendSeq
       [] kind = "c" -> ComboSeq(L, P.win, P.combo)
+      [] kind = "o" -> OverSeq(L, P.win)
+      [] kind = "p" -> PairSeq(L, P.win)
+      [] kind = "u" -> UnalSeq(L, P.win)
       [] kind = "r" -> RawSeq(P.raw)
 
 (* closed forms of the numbers of descriptors (checked against the sequences above  *)
@@ -136,6 +180,10 @@ NumDesc(kind, L, P) ==
       [] kind = "a" -> 6
       [] kind = "c" -> 3 * ComboCountW(L, 4, P.win, P.combo) + 3 * ComboCountW(L, 8, P.win, P.combo)
       [] kind = "r" -> IF P.raw = 0 THEN 1 ELSE IF P.raw = 1 THEN 257 ELSE 65793
+      [] kind = "o" -> AlignedCount(L, 4, P.win) * NV(4) + AlignedCount(L, 8, P.win) * NV(8)
+      [] kind = "p" -> AlignedCount(L, 16, P.win) * NV(8)
+      [] kind = "u" -> (WinCount(L, 4, P.win) - AlignedCount(L, 4, P.win)) * NV(4)
+                       + (WinCount(L, 8, P.win) - AlignedCount(L, 8, P.win)) * NV(8)
       [] kind = "R" -> Pow256(L)              \* for the compact class, L is the string length k
 
 (* a descriptor is well formed for the length class L *)
@@ -150,6 +198,12 @@ WellFormed(d, L, P) ==
                        /\ d[2] \in Nat /\ d[2] + d[3] <= Min2(L, P.win)
                        /\ d[5] \in TruncPoints(d[2] + d[3], L, P.combo)
       [] d[1] = "r" -> Len(d) <= 4 /\ \A j \in 2..Len(d) : d[j] \in Byte
+      [] d[1] = "o" -> /\ Len(d) = 4 /\ d[3] \in {4, 8} /\ d[4] \in 1..NV(d[3])
+                       /\ d[2] \in Nat /\ d[2] % 4 = 0 /\ d[2] + d[3] <= Min2(L, P.win)
+      [] d[1] = "u" -> /\ Len(d) = 4 /\ d[3] \in {4, 8} /\ d[4] \in 1..NV(d[3])
+                       /\ d[2] \in Nat /\ d[2] % 4 # 0 /\ d[2] + d[3] <= Min2(L, P.win)
+      [] d[1] = "p" -> /\ Len(d) = 4 /\ d[3] = 8 /\ d[4] \in 1..NV(8)
+                       /\ d[2] \in Nat /\ d[2] % 4 = 0 /\ d[2] + 16 <= Min2(L, P.win)
       [] d[1] = "R" -> Len(d) = 2 /\ d[2] \in 0..3
       [] OTHER -> FALSE
 
@@ -165,6 +219,9 @@ Apply(E, d) ==
       [] d[1] = "m" -> SetWindow(E, d[2], Pattern(d[4]))
       [] d[1] = "a" -> E \o Garbage(d[2], E)
       [] d[1] = "c" -> SubSeq(SetWindow(E, d[2], Pattern(d[4])), 1, d[5])
+      [] d[1] = "o" -> SetWindow(E, d[2], OVal(d[3], d[4]))
+      [] d[1] = "u" -> SetWindow(E, d[2], OVal(d[3], d[4]))
+      [] d[1] = "p" -> SetWindow(SetWindow(E, d[2], OVal(8, d[4])), d[2] + 8, OVal(8, d[4]))
       [] d[1] = "r" -> Tail(d)
 
 (* laws of the fault model (checked by MC_Parser for every descriptor of every test   *)
@@ -187,6 +244,14 @@ Law(E, d) ==
       [] d[1] = "c" -> /\ Len(R) = d[5] /\ d[5] < Len(E)
                        /\ SubSeq(R, d[2] + 1, d[2] + d[3]) = Pattern(d[4])   \* the field survives
                        /\ \A j \in 1..Len(R) : (j <= d[2] \/ j > d[2] + d[3]) => R[j] = E[j]
+      [] d[1] \in {"o", "u"} ->
+                       /\ Len(R) = Len(E)
+                       /\ DiffPositions(R, E) \subseteq (d[2] + 1)..(d[2] + d[3])
+                       /\ SubSeq(R, d[2] + 1, d[2] + d[3]) = OVal(d[3], d[4])
+      [] d[1] = "p" -> /\ Len(R) = Len(E)
+                       /\ DiffPositions(R, E) \subseteq (d[2] + 1)..(d[2] + 16)
+                       /\ SubSeq(R, d[2] + 1, d[2] + 8) = OVal(8, d[4])
+                       /\ SubSeq(R, d[2] + 9, d[2] + 16) = OVal(8, d[4])      \* both fields agree
       [] d[1] = "r" -> Len(R) = Len(d) - 1 /\ \A j \in 1..Len(R) : R[j] = d[j + 1]
 
 -----------------------------------------------------------------------------
